@@ -180,6 +180,11 @@ func (s *state) specCluster(d *networking.Destination) string {
 	}
 	h := d.Host
 	svc := s.services[host.Name(d.Host)]
+	if byNs := s.servicesNs[d.Host]; byNs != nil {
+		if own := byNs[s.cfg.Namespace]; own != nil {
+			svc = own // the service of the VirtualService's own namespace
+		}
+	}
 	if svc != nil && svc.Attributes.K8sAttributes.ExternalName != "" {
 		h = svc.Attributes.K8sAttributes.ExternalName
 	}
@@ -230,7 +235,7 @@ func (s *state) specAction(r *networking.HTTPRoute) string {
 	case r.DirectResponse != nil:
 		b := "-"
 		if r.DirectResponse.Body != nil {
-			b = wire.Enc(r.DirectResponse.Body.GetString_())
+			b = wire.Enc(bodyText(r.DirectResponse.Body))
 		}
 		return "dr:" + strconv.Itoa(int(r.DirectResponse.Status)) + "!" + b
 	}
